@@ -310,7 +310,10 @@ theorem freeze_is_transparent (st : St) : (freeze st).heap = st.heap ∧ (freeze
     called only on the nodes of the cloned search path (`result.p` / `.pp` / `.ppp` of copyOnWriteSearch) - exactly the
     targets `allowed` permits - and links in only nodes built in the same transaction; every other assignment to a node
     field initialises a node that was just built (`newNode`, `newNodeFromRef`, `new(node)`); only the clones of the
-    search and freshly built nodes are added to the writable cache; snapshot, clone and commit reset it. A write site
+    search and freshly built nodes are added to the writable cache; every slice of nodes that is mutated in place (index
+    assignment, shifting `append`, `clear`, `copy` into, `slices.SortFunc` in `newNode` - followed through locals, append
+    chains, helper parameters and helper results) was made by the same step (`make`, a literal, `getEdges`), never a
+    re-slice of or an append onto `t.root` / a node's `children`; snapshot, clone and commit reset the cache. A write site
     of any other origin anywhere (a node of the published tree, `result.matched`, an unknown expression) breaks this
     theorem. -/
 theorem writes_tie :
@@ -318,6 +321,7 @@ theorem writes_tie :
     Generated.updateEdgeArgs = ["built", "cow|cp"] ∧
     Generated.nodeFieldAssigns = ["built.key", "built.paramChildIndex", "built.wildcardChildIndex", "updateEdge-receiver.children[]"] ∧
     Generated.writableAdds = ["built", "cow|cp"] ∧
+    Generated.sliceMutations = ["made"] ∧
     Generated.writableResets = ["tXn.clone", "tXn.commit", "tXn.snapshot"] := by
   decide
 
